@@ -1,6 +1,7 @@
 import GoframeModel.Ops.Select
 import GoframeModel.Spec.Select
-import GoframeModel.Lemmas.Refine
+import GoframeModel.Lemmas.RefineA
+import GoframeModel.Lemmas.Select
 /-
   C08 — row and column selection returns exactly the requested cells in order.
   Each theorem equates the model of the code path (loops over `Row(i)` / `AppendRow`, slices) with the
@@ -16,53 +17,81 @@ def outcomeOfOption (e : Option Frame) (o : Outcome Frame) : Prop :=
 
 theorem head_spec {f : Frame} {n : Nat} (hs : f.Sorted) (hr : f.RectN n) (c : Int) :
     f.head c = .ok (Spec.headSpec f c) := by
-  sorry
+  exact head_eq hs hr c
 
 theorem tail_spec {f : Frame} {n : Nat} (hs : f.Sorted) (hr : f.RectN n) (c : Int) (hn : (n : Int) < 2 ^ 62) :
     f.tail c = .ok (Spec.tailSpec f c) := by
-  sorry
+  exact tail_eq hs hr c hn
 
 theorem rowSlice_spec {f : Frame} {n : Nat} (hs : f.Sorted) (hr : f.RectN n) (a b : Int) :
     f.rowSlice a b = Spec.rowSliceSpec f a b := by
-  sorry
+  have _ := hs
+  exact rowSlice_eq hr a b
 
 /-- `Filter` keeps exactly the accepted rows, and the predicate sees each row exactly once, in order,
 with all its cells -/
 theorem filter_spec {f : Frame} {n : Nat} (hs : f.Sorted) (hr : f.RectN n) (p : Nat → Row → Bool) :
     f.filter p = Spec.filterSpec f p ∧ f.filterLog = Spec.filterLogSpec f := by
-  sorry
+  have _ := hs
+  exact ⟨filter_eq hr p, filterLog_eq hr⟩
 
 theorem iloc_spec {f : Frame} {n : Nat} (hs : f.Sorted) (hr : f.RectN n) (ris cis : List Int) :
     outcomeOfOption (Spec.ilocSpec f ris cis) (f.iloc ris cis) := by
-  sorry
+  have _ := hs; have _ := hr
+  have h := iloc_refines f ris cis
+  unfold outcomeOfOption
+  split <;> rename_i e <;> rw [e] at h
+  · exact h.some
+  · exact h.none
 
 theorem loc_spec {f : Frame} {n : Nat} (hs : f.Sorted) (hr : f.RectN n) (labels : List Cell) (cols : List Str) :
     outcomeOfOption (Spec.locSpec f labels cols) (f.loc labels cols) := by
-  sorry
+  have _ := hs
+  have h := loc_refines hr labels cols
+  unfold outcomeOfOption
+  split <;> rename_i e <;> rw [e] at h
+  · exact h.some
+  · exact h.none
 
 theorem multiSelect_spec {f : Frame} {n : Nat} (hs : f.Sorted) (hr : f.RectN n) (ks : List Str) :
     outcomeOfOption (Spec.multiSelectSpec f ks) (f.multiSelect ks) := by
-  sorry
+  have _ := hs
+  have h := multiSelect_refines hr ks
+  unfold outcomeOfOption
+  split <;> rename_i e <;> rw [e] at h
+  · exact h.some
+  · exact h.none
 
 theorem dropRow_spec {f : Frame} {n : Nat} (hs : f.Sorted) (hr : f.RectN n) (i : Int) :
     outcomeOfOption (Spec.dropRowSpec f i) (f.dropRow i) := by
-  sorry
+  have h := dropRow_refines hs hr i
+  unfold outcomeOfOption
+  split <;> rename_i e <;> rw [e] at h
+  · exact h.some
+  · exact h.none
 
 theorem dropColumn_spec {f : Frame} {n : Nat} (hs : f.Sorted) (hr : f.RectN n) (k : Str) :
     outcomeOfOption (Spec.dropColumnSpec f k) (f.dropColumn k) := by
-  sorry
+  have h := dropColumn_refines hs hr k
+  unfold outcomeOfOption
+  split <;> rename_i e <;> rw [e] at h
+  · exact h.some
+  · exact h.none
 
 /-- `Row(i)` succeeds exactly for `0 ≤ i < Nrows()` and then returns every cell of that row -/
 theorem row_spec {f : Frame} {n : Nat} (hr : f.RectN n) (i : Int) :
     (match Spec.rowSpec f i with
      | some r => f.rowAt i = .ok r
      | none => (f.rowAt i).isErr = true) := by
-  sorry
+  have h := rowAt_refines hr i
+  split <;> rename_i e <;> rw [e] at h
+  · exact h.some
+  · exact h.none
 
 /-- `ColumnNames()` is the strictly sorted list of the column names; `Ncols` is its length -/
 theorem columnNames_sorted {f : Frame} (hs : f.Sorted) :
     (f.columnNames).Pairwise (fun a b => strLt a b = true) ∧ f.columnNames.length = f.ncols := by
-  sorry
+  exact ⟨List.pairwise_map.mpr hs, keys_length f⟩
 
 example : (Frame.head [([97], { name := [97], data := [.int .int 1, .int .int 2, .nil] })] (-1)) =
     .ok [([97], { name := [97], data := [] })] := by decide
